@@ -780,6 +780,18 @@ func (c *kase) tamper(p *parts, op fx.Ev) error {
 			return fmt.Errorf("cout_drop: no contract output %d", j)
 		}
 		p.cOuts = append(append([]*protos.TxOutput{}, p.cOuts[:j-1]...), p.cOuts[j:]...)
+	case "cout_less", "cout_freeze":
+		// one of the contract's outputs differs among the real outputs: 1 less (the rest is the client's change) / frozen
+		if j < 1 || j > len(p.cOuts) {
+			return fmt.Errorf("%s: no contract output %d", op.Str("tk"), j)
+		}
+		o := proto.Clone(p.cOuts[j-1]).(*protos.TxOutput)
+		if op.Str("tk") == "cout_less" {
+			o.Amount = new(big.Int).Sub(new(big.Int).SetBytes(o.Amount), big.NewInt(1)).Bytes()
+		} else {
+			o.FrozenHeight = 1000000
+		}
+		p.cOuts = append(append(append([]*protos.TxOutput{}, p.cOuts[:j-1]...), o), p.cOuts[j:]...)
 	case "cin_omit":
 		p.cIns = nil
 	case "cin_extra":
